@@ -841,6 +841,21 @@ pub fn generate(thorough: bool, seed: u64, out: &mut dyn Write) {
             }
         }
     }
+    // recorded finding dat.block-table-amplification: a block table whose entries all point at the
+    // same stored block — the output is (number of entries) x (block size) from a few KB of input
+    for (entries, block) in [(1200usize, 16000usize), (6000, 16000)] {
+        let mut b = B::new(false);
+        let header_size = ((24 + entries * 8 + 127) / 128 * 128) as u32;
+        b.u32(header_size).u32(2).u32((entries * block) as u32);
+        b.u32(0).u32(0).u32(entries as u32);
+        for _ in 0..entries {
+            b.u32(0).u16(0).u16(0);
+        }
+        pad_to(&mut b, header_size as usize);
+        let payload = vec![0x5Au8; block];
+        data_block(&mut b, BlockKind::Stored, &payload);
+        emit(out, "dat", &b.v, "0");
+    }
     // random blobs as dat files, with a plausible file-info prefix half of the time
     for i in 0..(if thorough { 2000 } else { 150 }) {
         let len = rng.range(0, 600) as usize;
